@@ -9,7 +9,8 @@ int main(void)
 {
     spif_charptr_t r = spiftool_substr((spif_charptr_t) "abc", 0, -5);
     printf("substr(\"abc\", 0, -5) = %s%s%s\n", r ? "\"" : "", r ? (char *) r : "NULL", r ? "\"" : "");
-    assert(spiftool_substr((spif_charptr_t) "abc", 0, -3)[0] == 0);   /* drop all three: empty, fine */
+    { spif_charptr_t e = spiftool_substr((spif_charptr_t) "abc", 0, -3); assert(e && e[0] == 0); free(e); }   /* drop all three: empty, fine */
     assert(r == NULL || r[0] == 0);
+    free(r);
     return 0;
 }
